@@ -34,7 +34,8 @@ LEVEL_TEXT = ("Exploration: thousands of collinear trees (chains of 2-40 nodes, 
               "radius up to 50x longer; lines in random and axis-aligned directions, far from the "
               "origin) at every analytic level 3..9 and the named levels, plus all generic shape "
               "classes at levels 1-2. Held = held on those executions."
-              "The same skeleton is measured again with other radii, as a second tree object and after an in-place edit through node handles; half of the trees carry a file source.")
+              "The same skeleton is measured again with other radii, as a second tree object and after an in-place edit through node handles; half of the trees carry a file source."
+              " One layout in three is expressed in another length unit (x 1e-3, 1e-2, 1e2, 1e3).")
 LEVEL_NOTE = ("Levels 5-9 on a root with two opposite arms run the library's sampled "
               "cone-cone term (identically zero there); only a few such cases run per shard because "
               "each costs seconds. Tolerance rtol 2e-4 (the library accumulates in float32). "
@@ -51,7 +52,7 @@ REQUIRED = ["union_volume_checked", "level1_checked", "level2_checked", "levels_
             "two_arm_roots", "two_arm_sampled_levels", "overlapping_neighbours",
             "tangent_neighbours", "disjoint_neighbours", "growing_radii", "tapering_radii",
             "frontend_checked", "named_levels_checked", "same_skeleton_other_radii",
-            "zero_radius_tips", "far_exact_layouts"]
+            "zero_radius_tips", "far_exact_layouts", "other_length_units"]
 FLOOR = {"quick": 500, "thorough": 10000}
 SHARDS = {"quick": 8, "thorough": 16}
 TIMEOUT = {"quick": 400, "thorough": 3000}
@@ -64,7 +65,7 @@ def layout(case):
     arms = case["arms"]
     n_arm = [int(rng.integers(1, case["max_len"] + 1)) for _ in range(arms)]
     prof = case["profile"]
-    r0 = float(10 ** rng.uniform(-1, 1))
+    r0 = float(10 ** rng.uniform(-1, 1)) * float(case.get("unit", 1.0))
     z, r, pid = [0.0], [r0], [-1]
     for a, m in enumerate(n_arm):
         sign = 1.0 if a == 0 else -1.0
@@ -112,7 +113,7 @@ def build(case):
     else:
         u = rng.normal(size=3)
         u /= np.linalg.norm(u)
-    off = rng.normal(size=3) * case["offset"]
+    off = rng.normal(size=3) * case["offset"] * float(case.get("unit", 1.0))
     if case.get("far_exact"):
         # far from the origin but exactly representable: an axis-aligned line, positions on a
         # 1/4 grid, offset 2^18 (float32 spacing there is 1/32), so no rounding blurs the layout
@@ -239,6 +240,18 @@ def exec_union(ctx, case):
         ctx.count("far_exact_layouts")
     want = true_union(zz, r, pid)
     _classify(ctx, zz, r, pid)
+    if case.get("unit", 1.0) != 1.0:
+        ctx.count("other_length_units")
+    # the library's documented absolute band eps = 1e-6: an end radius smaller than the other by
+    # at most eps is treated as equal (hemisphere fast path); bounded like in C13
+    band = 0.0
+    for i in range(1, len(zz)):
+        dr = abs(r[i] - r[pid[i]])
+        if 0 < dr <= 1.5e-6:
+            rb = max(r[i], r[pid[i]])
+            band += 2 * np.pi * rb * min(abs(zz[i] - zz[pid[i]]), rb) * 1.5e-6
+    if band:
+        ctx.count("compartments_in_eps_band")
     two_arm = case["arms"] == 2 and len(zz) > 2 and (pid == 0).sum() == 2
     if two_arm:
         ctx.count("two_arm_roots")
@@ -281,7 +294,10 @@ def exec_union(ctx, case):
                     t2.node(i_).r = np.float32(r2[i_])
             got2 = float(get_volume(t2, accuracy=acc))
             ctx.count("same_skeleton_other_radii")
-            if not np.isfinite(got2) or abs(got2 - want2) > RTOL * want2:
+            band2 = sum(2 * np.pi * max(r2[i], r2[pid[i]]) * 1.5e-6
+                        * min(abs(zz[i] - zz[pid[i]]), max(r2[i], r2[pid[i]]))
+                        for i in range(1, len(zz)) if 0 < abs(r2[i] - r2[pid[i]]) <= 1.5e-6)
+            if not np.isfinite(got2) or abs(got2 - want2) > RTOL * want2 + band2:
                 return ctx.violation(
                     "stale-volume",
                     f"accuracy={acc!r}: after the radii were multiplied by {k_} on the same "
@@ -289,8 +305,8 @@ def exec_union(ctx, case):
                     f"first tree reported {got:.8g})", case)
             if t2 is tree:
                 r, want = r2, want2
-                got = got2
-        tol = RTOL * want * (2 if case.get("frontend") else 1)
+                got, band = got2, band2
+        tol = RTOL * want * (2 if case.get("frontend") else 1) + band
         if not np.isfinite(got) or abs(got - want) > tol:
             return ctx.violation(
                 "union-volume-wrong",
@@ -377,6 +393,9 @@ def run(ctx):
                     "offset": float(rng.choice([0.0, 10.0, 300.0])),
                     "frontend": bool(rng.random() < 0.15),
                     "zero_tip": bool(rng.random() < 0.15), "far_exact": bool(rng.random() < 0.12)}
+            if not case["far_exact"] and rng.random() < 0.3:
+                # the same shapes expressed in another length unit (mm, nm, ...)
+                case["unit"] = float(rng.choice([1e-3, 1e-2, 1e2, 1e3]))
             if arms == 1:
                 lv = [3, 4] + [int(x) for x in rng.choice([5, 6, 7, 8, 9], 2, replace=False)]
                 if rng.random() < 0.3:
